@@ -4,8 +4,9 @@
     order, by the next ring poll whose enter succeeds with a free slot. (The two-thread race of
     the second sentence, finding H15, is the subject of the scheduler runs, not of this model.)
     Property theorems only; model in Model/OpState.v, proofs in Proofs/OpStateWake.v. *)
+(* the small-step race model first: the names of Model/OpState.v imported next take precedence *)
+From A10 Require Import Model.OpRace Proofs.OpRaceProofs.
 From A10 Require Import Base.Word Base.Run Model.OpState Proofs.OpStateInv Proofs.OpStateWake.
-From A10 Require Model.OpRace Proofs.OpRaceProofs.
 
 Theorem C03_readying_completion_wakes_latest_waker : readying_completion_wakes_latest_waker.
 Proof. exact readying_completion_wakes_latest_waker_holds. Qed.
